@@ -22,6 +22,14 @@ NAMINGS = {
               "descs": {"d": "desc with # hash, Filter: other marker, é and \"quotes\""}, "prefixes": None},
     "meta": {"names": {"N1": "lists (work)", "N2": "a+b* [x]", "N3": "^$.|?", "NX": "ghost"},
              "descs": {"d": "what? (really) [yes] a.b*c+ \\d $1"}, "prefixes": ("# [Filter] ", "#* (about)? ")},
+    # marker prefixes with non-ASCII characters (their length in characters and in UTF-8 octets differ)
+    "intl": {"names": {"N1": "courrier", "N2": "règle 2", "N3": "→ x", "NX": "ghost"},
+             "descs": {"d": "détail du filtre"}, "prefixes": ("# Règle : ", "# Détail → ")},
+    # the same names handed to the API as UTF-8 bytes (all name arguments / only the `new name' arguments)
+    "bytes": {"names": {"N1": "rule one", "N2": "règle d'été", "N3": "third ☃", "NX": "ghost"}, "descs": {"d": "my description"},
+              "prefixes": None, "api": "bytes"},
+    "mixed": {"names": {"N1": "rule one", "N2": "règle d'été", "N3": "third ☃", "NX": "ghost"}, "descs": {"d": "my description"},
+              "prefixes": None, "api": "mixed"},
     "custom": {"names": {"N1": "Filter: old style", "N2": "b # D-like", "N3": "ünï", "NX": "ghost"},
                "descs": {"d": "Description: old style text"}, "prefixes": ("# N: ", "# D: ")},
 }
@@ -50,6 +58,12 @@ def run_history(task):
     fs = F.sfactory.FiltersSet("t", *pre) if pre else F.sfactory.FiltersSet("t")
     for n, d in initfs:
         fs.addfilter(N[n], *F.DEFS[d])
+    N_str = N
+    api = nm.get("api")
+    B = lambda x: x.encode("utf-8") if isinstance(x, str) else x          # noqa: E731
+    if api == "bytes":
+        N = {k: B(v) for k, v in N_str.items()}
+    N2 = {k: B(v) for k, v in N_str.items()} if api in ("bytes", "mixed") else N     # `new name' arguments
     probs = []
     for k, (op, ret, after) in enumerate(hist):
         kind = op[0]
@@ -57,13 +71,13 @@ def run_history(task):
         if kind == "add":
             got = F.call(fs.addfilter, N[op[1]], *F.DEFS[op[2]])
         elif kind == "update":
-            got = F.call(fs.updatefilter, N[op[1]], N[op[2]], *F.DEFS[op[3]])
+            got = F.call(fs.updatefilter, N[op[1]], N2[op[2]], *F.DEFS[op[3]])
         elif kind == "replace":
             try:
                 content = fs.getfilter(N[op[2]])
             except Exception as e:  # noqa
                 content = None
-            got = F.call(fs.replacefilter, N[op[1]], content, N[op[3]] if op[3] else None,
+            got = F.call(fs.replacefilter, N[op[1]], content, N2[op[3]] if op[3] else None,
                          nm["descs"][op[4]] if op[4] else None)
         elif kind == "remove":
             got = F.call(fs.removefilter, N[op[1]])
@@ -98,7 +112,7 @@ def run_history(task):
         if kind != "reload" and ret != "any" and got != ret:
             probs.append({"prop": "C12", "step": k, "what": "%s returned %s, list model says %s" % (op, got, ret)})
         proj = F.project(fs)
-        want = [(N[f["name"]], f["enabled"], f["def"], nm["descs"].get(f["desc"], "")) for f in after]
+        want = [(N_str[f["name"]], f["enabled"], f["def"], nm["descs"].get(f["desc"], "")) for f in after]
         have = [(f["name"], f["enabled"], f["def"], f["desc"]) for f in proj]
         if want != have:
             probs.append({"prop": "C11" if kind == "reload" else "C12", "step": k,
@@ -117,14 +131,14 @@ def run_history(task):
 STATUS = ("enable", "disable", "move", "remove", "reload")
 EDIT = ("update", "replace", "enable", "disable")
 PLANS = {
-    ("C12", "quick"): [(2, [("N1", "D1"), ("N2", "D2")], ["plain"]), (2, [], ["plain"]), (2, [("N1", "D1")], ["nasty"]),
+    ("C12", "quick"): [(2, [("N1", "D1"), ("N2", "D2")], ["plain", "bytes"]), (2, [], ["plain"]), (2, [("N1", "D1")], ["nasty", "mixed"]),
                        (3, [("N1", "D1"), ("N2", "D2")], ["plain"], STATUS), (3, [("N1", "D1")], ["plain"], EDIT)],
-    ("C12", "thorough"): [(3, [("N1", "D1"), ("N2", "D2")], ["plain", "nasty"]), (3, [], ["plain"]), (3, [("N1", "D2")], ["plain"]),
+    ("C12", "thorough"): [(3, [("N1", "D1"), ("N2", "D2")], ["plain", "nasty", "bytes", "mixed"]), (3, [], ["plain", "bytes"]), (3, [("N1", "D2")], ["plain", "mixed"]),
                           (5, [("N1", "D1"), ("N2", "D2")], ["plain"], STATUS), (4, [("N1", "D1")], ["plain"], EDIT)],
-    ("C11", "quick"): [(2, [("N1", "D1"), ("N2", "D2")], ["plain", "nasty", "custom", "meta"]), (2, [], ["nasty"]),
-                       (3, [("N1", "D1"), ("N2", "D2")], ["nasty", "custom", "meta"], STATUS),
+    ("C11", "quick"): [(2, [("N1", "D1"), ("N2", "D2")], ["plain", "nasty", "custom", "meta", "intl"]), (2, [], ["nasty", "bytes"]),
+                       (3, [("N1", "D1"), ("N2", "D2")], ["nasty", "custom", "meta", "intl"], STATUS),
                        (2, [("N1", "D3"), ("N2", "D3")], ["plain", "custom"], ALLOPS, ("D3",))],
-    ("C11", "thorough"): [(3, [("N1", "D1"), ("N2", "D2")], ["plain", "nasty", "custom", "meta"]), (3, [], ["nasty", "custom", "meta"]),
+    ("C11", "thorough"): [(3, [("N1", "D1"), ("N2", "D2")], ["plain", "nasty", "custom", "meta", "intl", "bytes"]), (3, [], ["nasty", "custom", "meta", "intl"]),
                           (3, [("N1", "D3"), ("N2", "D3")], ["plain", "custom", "meta"], ALLOPS, ("D3",))],
 }
 
@@ -154,7 +168,7 @@ def run(prop, tier, seed):
         machinery.append("TLC FiltersSet (simulate): %s %s" % (res["error"], res["violated"]))
     trans += res["states"]
     for i, h in enumerate(hs):
-        tasks.append((h, [("N1", "D1")], ["plain", "nasty", "custom", "meta"][i % 4], prop))
+        tasks.append((h, [("N1", "D1")], ["plain", "nasty", "custom", "meta", "intl", "bytes", "mixed"][i % 7], prop))
     nsteps = 0
     probs = []
     with mp.Pool(14) as pool:
